@@ -143,6 +143,20 @@ func zzScopeProgram(sv *zzsv.T, k int, clash string, arr *zzExpr) *zzProg {
 		sw := &zzStmt{kind: sSwitch, e: N, cases: []zzCase{{exprs: []*zzExpr{N}, body: []*zzStmt{stLocal("x"), stSet("x", xLit(55))}}, {dflt: true, body: []*zzStmt{stT(xLit(1))}}}}
 		return &zzProg{funcs: []*zzFunc{{name: "f", body: []*zzStmt{sw, stRet(xLit(3))}}},
 			main: []*zzStmt{stEach("", "x", arr, stSet("r", xCall("f")), stT(xVar("x"))), stT(xVar("a")), stRet(xVar("x"))}}
+	case 25: // a callee that leaves values behind (an ignored call result, a literal statement) while the caller has operands pending
+		return &zzProg{funcs: []*zzFunc{
+			{name: "id", params: []string{"p"}, body: []*zzStmt{stRet(xVar("p"))}},
+			{name: "noisy", params: []string{"p"}, body: []*zzStmt{stCall("id", xVar("p")), {kind: sExpr, e: xLit(7)}, stRet(xBin("+", xVar("p"), xLit(1)))}},
+			{name: "three", params: []string{"x", "y", "z"}, body: []*zzStmt{stCall("id", xVar("y")), stRet(xBin("-", xBin("-", xVar("x"), xVar("y")), xVar("z")))}}},
+			main: []*zzStmt{stSet("r", xBin("+", N, xCall("noisy", xVar(clash)))), stSet("q", xCall("three", N, xCall("noisy", xVar("a")), xVar("b"))),
+				stT(xVar("r")), stT(xVar("q")), stRet(xBin("-", xVar("r"), xCall("noisy", xVar("q"))))}}
+	case 26: // ... recursion with a pending operand and a noisy statement in every frame
+		return &zzProg{funcs: []*zzFunc{
+			{name: "id", params: []string{"p"}, body: []*zzStmt{stRet(xVar("p"))}},
+			{name: "f", params: []string{clash}, body: []*zzStmt{stCall("id", xVar(clash)),
+				stIf(xBin("<", xVar(clash), xLit(1)), stRet(xLit(0))),
+				stRet(xBin("+", xVar(clash), xCall("f", xBin("-", xVar(clash), xLit(1)))))}}},
+			main: []*zzStmt{stSet("r", xBin("+", xLit(100), xCall("f", N))), stT(xVar("a")), stRet(xVar("r"))}}
 	default: // a function without return used as a statement: nothing comes back
 		return &zzProg{funcs: []*zzFunc{{name: "f", params: []string{"p"}, body: []*zzStmt{stSet("g", xVar("p"))}}},
 			main: []*zzStmt{stCall("f", N), stCall("f", xBin("+", N, xLit(1))), stRet(xVar("g"))}}
@@ -153,12 +167,12 @@ func zzScopeProgram(sv *zzsv.T, k int, clash string, arr *zzExpr) *zzProg {
 // variables of the same names have their old values, the callee's are gone,
 // other assignments are global.
 func ZZ_C06_Scopes(sv *zzsv.T) {
-	k := sv.Choice("scenario", 26)
+	k := sv.Choice("scenario", 28)
 	clash := []string{"a", "b"}[sv.Choice("clash", 2)]
 	vars := map[string]zv{"a": zInt(sv.Int64("a")), "b": zInt(sv.Int64("b"))}
 	order := []string{"a", "b"}
 	n := sv.Int64("n")
-	if k == 9 || k == 5 {
+	if k == 9 || k == 5 || k == 26 {
 		// recursion depth / loop trips are driven by n: keep them bounded
 		sv.Assume(n >= -1)
 		sv.Assume(n <= 3)
